@@ -115,6 +115,16 @@ def scenario(d, kind):
         return lambda: main(["-i", "--nobackup", "-w", "40", a, b]), [a, b], False
     if kind == "auto":
         return lambda: main(["--auto", "-w", "40", a]), [a], False
+    if kind in ("symlink-nobackup", "symlink-backup"):
+        # the path to format is a symbolic link (relative, to a file in a sub-directory): what can be read through that
+        # path is old or new at every instant, exactly as for a regular file
+        os.makedirs(os.path.join(d, "real"))
+        os.rename(a, os.path.join(d, "real", "target.md"))
+        link = os.path.join(d, "a.md")
+        os.symlink(os.path.join("real", "target.md"), link)
+        if kind == "symlink-nobackup":
+            return lambda: main(["-i", "--nobackup", "-w", "40", link]), [link], False
+        return lambda: main(["-i", "-w", "40", link]), [link], True
     raise ValueError(kind)
 
 
@@ -331,7 +341,7 @@ def fail_with_output_path(viol):
 
 def bounded(tier, seed):
     from flowmark.reformat_api import reformat_text
-    kinds = ["inplace", "inplace-nobackup", "two-files", "auto"]
+    kinds = ["inplace", "inplace-nobackup", "two-files", "auto", "symlink-nobackup", "symlink-backup"]
     evals, violations, samples, distinct = 0, [], [], set()
     for kind in kinds:
         n = count_calls(kind)
@@ -386,7 +396,7 @@ def bounded(tier, seed):
     evals += fail_before_write(violations)
     evals += fail_with_output_path(violations)
     return {"evaluations": evals, "distinct_nontrivial": len(distinct), "violations": violations, "samples": samples,
-            "rule": "(also: undecodable input / raising formatter in a 3-file run leave the failing and later files untouched; a failing run "
+            "rule": "(also: the same fault / crash sweep with the path given as a symbolic link, with and without backup) (also: undecodable input / raising formatter in a 3-file run leave the failing and later files untouched; a failing run "
                     "with an explicit output path creates no file or directory and touches no existing output; the backup of a second "
                     "in-place run holds the text it replaced; a run without -i / --auto never modifies its input, for every 0-2 subset of the other switches) "
                     "for each scenario {inplace+backup, inplace, two files, --auto} and each k in 1..#fs-calls: raise OSError "
@@ -395,3 +405,21 @@ def bounded(tier, seed):
                     "per-target old/new/absent) outcomes",
             "exhaustive": True, "bound": "4 scenarios x every call index x {fault, crash}; patched calls: " +
                                          ", ".join("%s.%s" % (c or m, n) for m, c, n in PATCH_POINTS)}
+
+
+def witnesses():
+    """recorded finding C14-same-file-named-twice: `-i a.md a.md` backs up the already formatted text over a.md.orig"""
+    from flowmark.cli import main
+    d = scratch_dir("vf-c14w-")
+    try:
+        a = os.path.join(d, "a.md")
+        open(a, "w").write(OPTION_DOC)
+        with in_dir(d), captured():
+            try:
+                main(["-i", "-w", "40", "a.md", "a.md"])
+            except BaseException:
+                pass
+        orig = a + ".orig"
+        return {"C14-same-file-named-twice": os.path.exists(orig) and open(orig).read() != OPTION_DOC and open(a).read() != OPTION_DOC}
+    finally:
+        shutil.rmtree(d, ignore_errors=True)
